@@ -274,6 +274,17 @@ LEX_FAMILIES = {
     "int-suffix-alt": lambda n: "0x" + "f" * n + "ULLL",
 }
 
+# product families (round-6 seed R6_C16_A: a nested quantifier in the bad-character-constant rule is only reached by a quote,
+# a run of plain characters and then an invalid escape with no closing quote on the line): opener x repeated unit x tail
+_LEX_OPEN = {"sq": "'", "wsq": "L'", "dq": '"', "wdq": 'L"'}
+_LEX_UNIT = {"plain": "a", "plain-esc": "ab\\n", "oct": "\\123", "blank": "a "}
+_LEX_TAIL = {"badesc": "\\(", "badesc-close": "\\(%s", "badesc-plain": "\\(bbbbbbbb", "bs-newline": "\\\n", "two-badesc": "\\(a\\`"}
+for _o, _ot in _LEX_OPEN.items():
+    for _u, _ut in _LEX_UNIT.items():
+        for _t, _tt in _LEX_TAIL.items():
+            LEX_FAMILIES[f"prod-{_o}-{_u}-{_t}"] = (lambda n, _ot=_ot, _ut=_ut, _tt=_tt:
+                                                     _ot + _ut * max(1, n // len(_ut)) + _tt.replace("%s", _ot[-1]))
+
 
 def plan(tier, seed):
     names = sorted(FAMILIES)
@@ -282,8 +293,8 @@ def plan(tier, seed):
     specs = [{"name": f"fam-{i}", "mode": "families", "families": names[i::n], "kmax": kmax} for i in range(n)]
     specs.append({"name": "files", "mode": "files", "maxchars": 60000 if tier == "quick" else 300000})
     lex = sorted(LEX_FAMILIES)
-    for i in range(4):
-        specs.append({"name": f"lex-{i}", "mode": "lex", "families": lex[i::4], "timeout_s": 900})
+    for i in range(8):
+        specs.append({"name": f"lex-{i}", "mode": "lex", "families": lex[i::8], "timeout_s": 900})
     return specs
 
 
